@@ -3,6 +3,7 @@
 gen_parse: packets built byte by byte here (independently of libtins) + targeted mutants.
 gen_build: API programs (new / push / set / show) over stacks and values the protocols can express.
 """
+from checks import wire_common as wc
 import re, sys
 
 ETHER_RECOGNISED = [0x0800, 0x86dd, 0x0806, 0x8863, 0x8864, 0x888e, 0x8100, 0x88a8, 0x9100, 0x8847]
@@ -484,7 +485,7 @@ def pppoe_tag_ops(rng, p, i):
         names = ["service_name", "ac_name", "host_uniq", "ac_cookie", "relay_session_id", "service_name_error",
                  "ac_system_error", "generic_error"]
         if k < 8:
-            p.set(i, names[k], hexs(rb(rng, ln)))
+            p.set(i, names[k], hexs(wc.textish(rng, ln)))
         elif k == 8:
             p.set(i, "vendor_specific", rng.choice([0, 1, 0xffffffff, rng.randrange(1 << 32)]), hexs(rb(rng, ln)))
         elif k == 9:
